@@ -1,6 +1,8 @@
 package interp
 
 import (
+	"encoding/binary"
+	"hash/fnv"
 	"fmt"
 	"go/types"
 	"sort"
@@ -318,12 +320,17 @@ func cacheKey(rel []*sym.Term, t *sym.Term) string {
 		ids[k] = r.ID
 	}
 	sort.Ints(ids)
-	var sb strings.Builder
+	// the key is a 128-bit digest of the sorted conjunct ids and the condition id (the ids
+	// themselves made keys of kilobytes; a collision is as unlikely as a hardware fault)
+	h := fnv.New128a()
+	var b [8]byte
 	for _, id := range ids {
-		fmt.Fprintf(&sb, "%d,", id)
+		binary.LittleEndian.PutUint64(b[:], uint64(id))
+		h.Write(b[:])
 	}
-	fmt.Fprintf(&sb, "|%d", t.ID)
-	return sb.String()
+	binary.LittleEndian.PutUint64(b[:], ^uint64(t.ID))
+	h.Write(b[:])
+	return string(h.Sum(nil))
 }
 
 // termVars returns the set of variable IDs (and UF names as negative pseudo-ids) in t, memoised.
@@ -446,8 +453,7 @@ func (i *interpreter) decideTerm(c *sym.Term) bool {
 			i.ForkSites[i.where()]++
 		}
 		i.decs = append(i.decs, Decision{Kind: "if", Choice: 1})
-		alt := append(append([]Decision{}, i.decs[:len(i.decs)-1]...), Decision{Kind: "if", Choice: 0})
-		i.push(alt)
+		i.push(i.decs[:len(i.decs)-1], Decision{Kind: "if", Choice: 0})
 		i.dpos = len(i.decs)
 		i.prefix = i.decs
 		i.addPC(c)
@@ -486,10 +492,9 @@ func (i *interpreter) choose(n int, what string) int {
 		i.decs = append(i.decs, d)
 		return int(d.Choice)
 	}
-	base := append([]Decision{}, i.decs...)
+	base := i.decs[:len(i.decs):len(i.decs)]
 	for k := n - 1; k >= 1; k-- {
-		alt := append(append([]Decision{}, base...), Decision{Kind: kind, Choice: int64(k), N: n})
-		i.push(alt)
+		i.push(base, Decision{Kind: kind, Choice: int64(k), N: n})
 	}
 	i.decs = append(i.decs, Decision{Kind: kind, Choice: 0, N: n})
 	i.dpos = len(i.decs)
@@ -552,10 +557,9 @@ func (i *interpreter) concretize(t *sym.Term, signed bool, what string) int64 {
 	if i.ForkSites != nil && len(vals) > 1 {
 		i.ForkSites[fmt.Sprintf("conc(%s)x%d%s", what, len(vals), i.where())]++
 	}
-	base := append([]Decision{}, i.decs...)
+	base := i.decs[:len(i.decs):len(i.decs)]
 	for k := len(vals) - 1; k >= 1; k-- {
-		alt := append(append([]Decision{}, base...), Decision{Kind: "conc", Choice: vals[k]})
-		i.push(alt)
+		i.push(base, Decision{Kind: "conc", Choice: vals[k]})
 	}
 	v := vals[0]
 	i.decs = append(i.decs, Decision{Kind: "conc", Choice: v})
@@ -565,15 +569,31 @@ func (i *interpreter) concretize(t *sym.Term, signed bool, what string) int64 {
 	return v
 }
 
-func (i *interpreter) push(p []Decision) {
-	i.pending = append(i.pending, p)
+// Alt is a pending alternative: the decisions of the path that found it up to the fork (shared,
+// never modified afterwards: decision vectors only grow by appending) plus the other choice. It
+// is turned into a decision prefix only when a worker takes it, so that a path with d decisions
+// costs O(d) memory for all its alternatives together instead of O(d) for each.
+type Alt struct {
+	base []Decision
+	last Decision
+}
+
+// Prefix materialises the alternative.
+func (a Alt) Prefix() []Decision {
+	p := make([]Decision, 0, len(a.base)+1)
+	p = append(p, a.base...)
+	return append(p, a.last)
+}
+
+func (i *interpreter) push(base []Decision, last Decision) {
+	i.pending = append(i.pending, Alt{base: base[:len(base):len(base)], last: last})
 }
 
 // ---------------------------------------------------------------- path execution
 
 // RunPath executes the harness once following prefix; returns the result and newly
 // discovered alternative prefixes.
-func (i *interpreter) runPath(fn *ssa.Function, prefix []Decision) (res PathResult, alts [][]Decision) {
+func (i *interpreter) runPath(fn *ssa.Function, prefix []Decision) (res PathResult, alts []Alt) {
 	i.prefix = prefix
 	i.dpos = 0
 	i.decs = nil
